@@ -2,11 +2,38 @@
 import vlib
 
 TRUSTED = ["translator T4 tools/gen_chan.py: what Receiver::recv does between a successful pop and the execution of the message and what Sender::send does after a successful push are translated statement by statement into gen/ChanProg.v on every run (unknown statements are refused, a conditional notify_one becomes 'may or may not notify'); the two wait_until predicates are compared with the shape Chan.v assumes",
-           "Chan.v TRUSTS the external crates async-event 0.2.1 (wait_until = remove own notifier / predicate / insert / predicate / cancel-or-forward; notify_one = wake one member of the wait set) and diatomic-waker 0.2.3 (register / notify) to behave as modelled there (their sources were read, not verified); the queue is abstracted to two counters (QueueConc.v proves the queue itself); closing a channel is not modelled; sequential consistency"]
+           "Chan.v assumes that the external crates async-event 0.2.1 (wait_until = remove own notifier / predicate / insert / predicate / cancel-or-forward; notify_one = wake one member of the wait set) and diatomic-waker 0.2.3 (register / notify) behave as modelled there: their sources were read, not verified; for async-event the assumption is exercised by oracle-judged schedules on the verbatim crate source (mirrored into atomh over instrumented primitives, part async-event-schedules: no sender is left pending and unwoken in front of a free slot), not by a trace replay; the queue is abstracted to two counters (QueueConc.v proves the queue itself); closing a channel is not modelled; sequential consistency"]
 
 
-def run(rep, tier):
+def gen_aes(rng, n):
+    """scenarios on the verbatim async-event Event used as channel.rs uses it (harness/atomh/src/aescen.rs)"""
+    cases = []
+    for _ in range(n):
+        cap = rng.choice([1, 2, 2, 3]); ns = rng.choice([2, 3, 3]); sends = rng.choice([1, 2]); pops = rng.randint(1, ns * sends)
+        sch = []
+        while len(sch) < rng.randint(60, 400):
+            sch += [rng.randrange(ns + 1)] * rng.choice([1, 1, 2, 5, 12, 30])
+        cases.append("aes %d %d %d %d 1 S %s" % (cap, ns, sends, pops, " ".join(map(str, sch))))
+    return cases
+
+
+def run_aes(rep, tier, rng):
+    cases = gen_aes(rng, 2000 if tier == "quick" else 40000)
+    outs = vlib.run_lines(vlib.ATOMH, ["seq"], cases)
+    bad = [(c, o) for c, o in zip(cases, outs) if not o.startswith("OK")]
+    blocked = sum(1 for o in outs if "pending=[]" not in o)
+    rep.cov["evaluations"] += len(cases)
+    rep.cov.setdefault("parts", {})["async-event-schedules"] = {"schedules": len(cases), "with_a_sender_left_pending": blocked, "oracle_failures": len(bad)}
+    if bad:
+        c, o = min(bad, key=lambda t: len(t[0]))
+        rep.violation("async-event-oracle", {"kind": "property-violated-on-implementation", "case": c, "observed": o, "failures": len(bad),
+                                             "why": "on the verbatim async-event crate (the version pinned by /repo/Cargo.lock) driven as channel.rs drives it (wait_until a slot can be taken; free a slot, then notify_one), a sender stays pending without having been woken although a slot is free: Chan.v's model of the primitive does not hold"})
+
+
+def run(rep, tier, rng=None):
     import gen_chan
+    if rng is not None:
+        run_aes(rep, tier, rng)
     part = {"translator": "ok"}
     try:
         _, (r, s) = gen_chan.generate()
